@@ -249,3 +249,56 @@ func shrinkWall() time.Duration {
 	}
 	return 120 * time.Second
 }
+
+// repoPanicSite returns the function of the code under test in which a
+// recovered panic arose (the innermost non-runtime frame after the panic
+// frames), or "" when that frame belongs to the harness or the standard
+// library (then the panic is the harness's own problem).
+func repoPanicSite(stack string) string {
+	const repo = "github.com/elastos/Elastos.ELA/"
+	lines := strings.Split(stack, "\n")
+	// Deferred functions that re-raise (and texts that carry an inner stack)
+	// list several "panic(" frames. Each is judged by the first real frame
+	// below it; the original panic is the LAST one that arose in the repository.
+	site := ""
+	for i, l := range lines {
+		if strings.HasPrefix(l, "panic(") {
+			if s := panicSiteFrom(lines[i:], repo); s != "" {
+				site = s
+			}
+		}
+	}
+	return site
+}
+
+func panicSiteFrom(lines []string, repo string) string {
+	seenPanic := false
+	for n, l := range lines {
+		if n > 0 && strings.HasPrefix(l, "panic(") {
+			return "" // the next panic frame: judged on its own
+		}
+		if strings.HasPrefix(l, "panic(") || strings.HasPrefix(l, "runtime.panic") || strings.HasPrefix(l, "runtime.gopanic") {
+			seenPanic = true
+			continue
+		}
+		if !seenPanic || strings.HasPrefix(l, "\t") {
+			continue
+		}
+		if strings.HasPrefix(l, "runtime.") || strings.HasPrefix(l, "runtime/") || strings.HasPrefix(l, "internal/") {
+			continue
+		}
+		if i := strings.Index(l, repo); i == 0 {
+			fn := l[len(repo):]
+			if j := strings.LastIndex(fn, "("); j > 0 {
+				fn = fn[:j]
+			}
+			return fn
+		}
+		if strings.HasPrefix(l, "verif/") || strings.HasPrefix(l, "testing.") || strings.HasPrefix(l, "created by") {
+			return "" // reached the harness without passing through the repository
+		}
+		// standard library or dependency frames called by the code under test
+		// (container/list, encoding, goleveldb ...): keep walking outwards
+	}
+	return ""
+}
